@@ -124,3 +124,33 @@ Definition w_flat : list hop :=
 Lemma w_flat_ok : forallb flat_op w_flat = true /\
   answers (xrun w_base false w_init w_flat) = [true; true; true; true; true; true; true; true].
 Proof. repeat split; vm_compute; reflexivity. Qed.
+
+(* ---- a root that already has content when DirFS is opened on it -------------------------- *)
+
+(* left there by an earlier run: links to a host directory (absolute, relative), a
+   dangling one, one to an in-root directory *)
+Definition w_host_pre : node :=
+  NDir [(s "n", NDir [(s "T", NDir [(s "root", NDir [(s "existing.txt", NFile);
+                                                     (s "labs", NLink (s "/n/T/victim"));
+                                                     (s "lrel", NLink (s "../victim"));
+                                                     (s "ldang", NLink (s "nowhere/x"));
+                                                     (s "lin", NLink (s "usr"));
+                                                     (s "usr", NDir [])]);
+                                    (s "victim", NDir [(s "keep.txt", NFile)])])])].
+Definition w_pre_ops : list hop :=
+  [HCreate (s "labs/job"); HCreate (s "lrel/job"); HRemove (s "labs/keep.txt"); HCreate (s "ldang/x"); HCreate (s "lin/ok")].
+
+(* as the code is (lstat): everything beneath the outside links is refused, nothing is
+   touched outside; with a stat that follows links the same operations are accepted
+   (the link is an empty directory in memory) and the kernel writes in the host directory *)
+Lemma w_pre_lstat_refused :
+  x_ov (xinit w_base w_host_pre) = match node_at w_host_pre (cc w_base) with Some n => n | None => NDir [] end /\
+  answers (xrun w_base false (xinit w_base w_host_pre) w_pre_ops) = [false; false; false; false; true] /\
+  forallb (fun t => forallb (fun q => negb (outside_base q)) t) (touched (xrun w_base false (xinit w_base w_host_pre) w_pre_ops)) = true.
+Proof. repeat split; vm_compute; reflexivity. Qed.
+
+Lemma w_pre_follow_escapes :
+  answers (xrun w_base false (xinit_stat true w_base w_host_pre) w_pre_ops) = [true; true; false; false; true] /\
+  firstn 2 (touched (xrun w_base false (xinit_stat true w_base w_host_pre) w_pre_ops)) =
+    [[[s "n"; s "T"; s "victim"; s "job"]]; [[s "n"; s "T"; s "victim"; s "job"]]].
+Proof. repeat split; vm_compute; reflexivity. Qed.
